@@ -28,7 +28,8 @@ def tie(rep, tier, rng, model_ok):
         for kind in ("big", "unit", "mixed", "mixed"):
             cmds = list(setup) + simgen.partition_cmds(rng, horizon, cancels, kind)
             g.append(len(cases))
-            cases.append({"models": [m], "sinks": [], "mode": "seq", "tags": {"periodic"}, "t0": 0, "clock": [], "cmds": cmds})
+            cases.append({"models": [m], "sinks": [], "mode": "seq", "tags": {"periodic", "ss-oracle"}, "t0": 0, "clock": [], "cmds": cmds,
+                          "sources": [[("all", 0, ("m", 0, k))] for k in range(4)]})
         groups.append(g)
     dis, orc, lm, mo, res = simcheck.compare_cases(rep, "partitions", cases, model_ok, oracles=ORACLES,
                                                    thread_counts=(1, 3) if q else (1, 2, 4, 8),
@@ -51,7 +52,7 @@ def tie(rep, tier, rng, model_ok):
     rep.cov["parts"]["partitions"]["partition_dependent_groups"] = bad
     b = [simgen.gen_sched(rng) for _ in range(150 if q else 4000)]
     simprops.run(rep, "C10", model_ok, [("sched-1thread", b, (1,), ORACLES, lambda c, o: "periodic" in c.get("tags", ()))],
-                 "1-4 periodic series (periods 1,2,3,4,6,10 ns; first deadlines 1..12) with coincidences and cancel points, horizon 15..40 cut into 4 partitions per bench (one step_until, unit steps, two random mixes); all partitions must produce the same (input, payload, time) firing sequence, equal to the model's; + general scheduling benches. non-trivial = >=4 occurrences fired")
+                 "1-4 periodic series, model-input events and EventSource events (periods 1,2,3,4,6,10 ns; first deadlines 1..12) with coincidences and cancel points, horizon 15..40 cut into 4 partitions per bench (one step_until, unit steps, two random mixes); all partitions must produce the same (input, payload, time) firing sequence, equal to the model's; + general scheduling benches. non-trivial = >=4 occurrences fired")
 
 
 def replay(rep, path, model_ok):
